@@ -15,7 +15,8 @@ Case kinds (same JSON goes to `lean/Drivers/Formula.lean`):
              may be {"var": k} (the k-th let) wherever a builder may stand; "drop" = an operation whose result is thrown away;
              {"build": node[, "z": bool][, "judge": true]} = `.build(...)` is called on that builder at this point of the
              program (a build HISTORY); the engine that is fed and judged is the one returned by the statement marked
-             "judge" (else by the final "ret"), and "tree" is the expression of THAT builder.
+             "judge" (else by the final "ret"), and "tree" is the expression of THAT builder; "names": "same" (default) =
+             every build of the program uses the same engine name, "distinct" = its own.
 Optional "backlog": {"<id>": [[ts, value], ...]} (string / run kinds): samples OLDER than the first round that already
 wait in the input streams when the engine starts (streams whose source started earlier); the engine must drop them while
 it synchronises, so the expected output is still one sample per round.  The Lean driver ignores the key.
@@ -787,7 +788,9 @@ def build_history_cases(ctx, n: int) -> list[dict]:
             j = rng.choice(builds)
             prog[j] = dict(prog[j], judge=True)
             prog[j].pop("z", None)
-        cases.append(_history_case(prog, rng.random() < 0.3, (f"{ctx.prop}/{ctx.seed}/history/rnd/{i}", rng.randint(3, 4), 0.06)))
+        c = _history_case(prog, rng.random() < 0.3, (f"{ctx.prop}/{ctx.seed}/history/rnd/{i}", rng.randint(3, 4), 0.06))
+        c["names"] = rng.choice(["same", "same", "distinct"])     # every build under one name / under its own name
+        cases.append(c)
     return cases
 
 
@@ -916,12 +919,14 @@ async def _send_backlog(case: dict, senders: dict[int, Any]) -> None:
             await senders[int(i)].send(Sample(T0 + timedelta(seconds=ts), _quantity(v)))
 
 
-async def _feed_and_collect(rx, senders: dict[int, Any], rounds: list[dict]) -> list:
+async def _feed_and_collect(rx, senders: dict[int, Any], rounds: list[dict], gaps: dict | None = None) -> list:
     Sample = R()["Sample"]
     out = []
     for rd in rounds:
         ts = T0 + timedelta(seconds=rd["ts"])
         for i, snd in senders.items():
+            if gaps and rd["ts"] in gaps.get(str(i), []):
+                continue        # this stream has NO sample for this timestamp
             await snd.send(Sample(ts, _quantity(rd["env"].get(str(i)))))
         try:
             while True:  # until one (virtual) second of silence: 0 samples = dropped, >1 would be a finding
@@ -1037,7 +1042,7 @@ async def real_string(case: dict) -> dict:
     await _send_backlog(case, senders)
     rx = engine.new_receiver()
     await asyncio.sleep(0)
-    out = await _feed_and_collect(rx, senders, rounds)
+    out = await _feed_and_collect(rx, senders, rounds, case.get("gaps"))
     await engine._stop()  # pylint: disable=protected-access
     return {"steps": steps, "out": out}
 
@@ -1126,11 +1131,12 @@ async def real_ho(case: dict) -> dict:
                 _ho_apply(st["drop"], engines, variables)
             elif "build" in st:
                 b = _ho_apply(st["build"], engines, variables)
+                bname = "l2" if case.get("names", "same") == "same" else f"l2-{k}"
                 if st.get("judge"):
                     judged = ([_ho_tok_repr(t, v) for t, v in b._steps],  # pylint: disable=protected-access
-                              b.build(f"l2-{k}", nones_are_zeros=z))
+                              b.build(bname, nones_are_zeros=z))
                 else:
-                    b.build(f"l2-{k}", nones_are_zeros=st.get("z", z))    # built, never started
+                    b.build(bname, nones_are_zeros=st.get("z", z))    # built, never started
             else:
                 hob = _ho_apply(st["ret"], engines, variables)
     else:
@@ -1353,6 +1359,71 @@ def check_cases(ctx, prop: str, cases: list[dict]) -> None:
             # the enlarged search of a broken proof / correspondence has its failing input: no need for the rest
             ctx.note(f"boosted search stopped after {min(k + CH, len(cases))} of {len(cases)} cases: failing input found")
             break
+
+
+# ======================================================================= start-up alignment that fails first (gaps)
+def gap_cases(ctx, n: int, p_missing: float) -> list[dict]:
+    """Streams that start out of step AND whose first alignment fails: the lagging stream holds one older sample and
+    has NO sample for the first common timestamp (a gap), so its next sample is already newer than the other streams'
+    first one; the engine drops that round and must align again.  Values encode (stream, timestamp).  Which rounds are
+    answered is the subject of C06; here every sample that IS emitted is judged against the inputs of ITS timestamp."""
+    cases = []
+    encs = [None, "nan", "inf", "-inf"]
+    for i in range(n):
+        rng = ctx.subrng("gap", i)
+        k = rng.choice([2, 2, 3])
+        ids = rng.sample([1, 2, 3, 5, 7], k)
+        shape = rng.choice(list(tree_shapes(k - 1)))
+        s = shape_to_string(shape, [rng.choice("+-*") for _ in range(k - 1)], [str(x) for x in ids], False)
+        start = rng.randint(2, 5)
+        lag = rng.choice(ids)
+
+        def val(stream: int, ts: int) -> Any:
+            if rng.random() < p_missing:
+                return rng.choice(encs)
+            return rat(Fraction((ids.index(stream) + 1) * 16 + ts))
+
+        rounds = [{"ts": t, "env": {str(x): val(x, t) for x in ids}} for t in range(start, start + rng.randint(5, 7))]
+        cases.append({"kind": "string", "s": s, "z": rng.random() < 0.3, "zids": [], "rounds": rounds,
+                      "backlog": {str(lag): [[start - 1, val(lag, start - 1)]]}, "gaps": {str(lag): [start]}})
+    return cases
+
+
+def check_gap_cases(ctx, prop: str, cases: list[dict]) -> None:
+    """Oracle only (the exact model has one aligned round per timestamp): every emitted sample must carry a timestamp
+    at which every input of the expression has a sample, and its value must be what THOSE inputs demand (C05: the
+    arithmetic value when all are present and it is defined, never a number for an undefined one; C13: exactly the
+    demanded value / None).  Tokens and post-fix steps are still compared with the model (rounds stripped)."""
+    impl = run_real(cases)
+    for c, i in zip(cases, impl):
+        a = case_ast(c)
+        ctx.case(c, tags=[c["kind"], "gap(first alignment fails)"], nontrivial=True)
+        if "exc" in i or "err" in i:
+            ctx.violation("the real builder/engine failed: " + str(i.get("exc") or i.get("err")), c, i)
+            continue
+        zflag = case_zflag(c)
+        ids = ast_ids(a)
+        by_ts = {rd["ts"]: rd for rd in c["rounds"]}
+        for ts, v in i.get("out") or []:
+            rd = by_ts.get(ts)
+            if rd is None or any(ts in (c.get("gaps") or {}).get(str(x), []) for x in ids):
+                ctx.violation("a sample was emitted for a timestamp at which not every input has a sample", c,
+                              {"ts": ts, "emitted": v, "out": i["out"]})
+                break
+            want = expected_sample(a, rd["env"], zflag)
+            ctx.tags["gap:judged-sample"] = ctx.tags.get("gap:judged-sample", 0) + 1
+            if prop == "C05":
+                if any(inp_missing(rd["env"].get(str(x))) for x in ids):
+                    continue
+                bad = (v is not None) if want is None else (v != want)
+            else:
+                bad = v != want
+            if bad:
+                ctx.violation("emitted value differs from what the inputs of ITS timestamp demand (after a failed first "
+                              "alignment)", c, {"round": rd, "emitted": v, "expected": want, "out": i["out"]})
+                break
+    ctx.compare("Formula", [dict(c, rounds=[]) for c in cases], [dict(i, out=[]) if "out" in i else i for i in impl],
+                what="tokens / postfix steps of the failed-first-alignment stream")
 
 
 # ======================================================================= non-finite RESULTS from finite inputs (C13)
